@@ -43,7 +43,84 @@ def build(case):
     obj.set_max_vehicles(case["V"])
     obj.set_max_sequence_length(case["L"])
     obj.vehicle_cost = list(case["vc"])          # as make_feasible does for dummy vehicles
+    obj._vq_log = []
+    obj._vq_post = []
+    if case.get("post"):
+        apply_post(obj, case)
     return obj
+
+
+def apply_post(obj, case):
+    """Re-enumeration stream: enumerate once, then change the problem through the public API in ways that
+    request a rebuild.  Arc additions (also those make_feasible performs through self.add_arc) are logged as
+    history entries, so that the model can be run on the CHANGED instance."""
+    try:
+        if case.get("lookup_first"):
+            obj.get_var_index(0, 0, 0)
+        else:
+            obj.get_num_variables()
+    except IndexError:
+        obj.get_num_variables()
+    log = obj._vq_log
+    for st in case["post"]:
+        if st[0] == "rebuild_arc":
+            obj.add_arc(st[1], st[2], st[3], st[4])
+            obj.reset_build_flags()
+            log.append(("arc", st[1], st[2], st[3], st[4]))
+            obj._vq_post.append("rebuild_arc")
+        elif st[0] == "setV":
+            obj.set_max_vehicles(obj.max_vehicles + st[1])
+            obj.reset_build_flags()
+            obj._vq_post.append("setV")
+        elif st[0] == "setL":
+            obj.set_max_sequence_length(obj.max_sequence_length + st[1])
+            obj.reset_build_flags()
+            obj._vq_post.append("setL")
+        elif st[0] == "make_feasible":
+            orig = obj.add_arc
+
+            def logged(o, d, t, c=0, _orig=orig):
+                log.append(("arc", o, d, t, c))
+                return _orig(o, d, t, c)
+            obj.add_arc = logged
+            try:
+                obj.make_feasible(st[1])
+                obj._vq_post.append("make_feasible ok")
+            except Exception as e:  # noqa  (heuristic failed loudly: the object is compared as it is)
+                obj._vq_post.append("make_feasible raised " + type(e).__name__)
+            finally:
+                del obj.add_arc
+        obj.get_num_variables()                 # every step is followed by a re-enumeration
+
+
+def effective(case, out):
+    """The instance the object represents after the post steps (== case when there are none)."""
+    eff = dict(case)
+    eff.update(out["eff"])
+    eff["post"] = []
+    return eff
+
+
+def gen_post(rng, case):
+    """1-2 rebuild-requesting changes for a case."""
+    names = []
+    for op in case["ops0"] + case["ops1"]:
+        if op[0] == "node" and op[1] not in names and op[3] <= op[4]:
+            names.append(op[1])
+    steps = []
+    for _ in range(rng.randint(1, 2)):
+        k = rng.random()
+        if k < 0.3 and names:
+            steps.append(("rebuild_arc", rng.choice(names), rng.choice(names), rng.randint(0, 2), rng.randint(-2, 5)))
+        elif k < 0.5:
+            steps.append(("setV", 1))
+        elif k < 0.7:
+            steps.append(("setL", 1))
+        elif names:
+            steps.append(("make_feasible", rng.choice([10, 50])))
+        else:
+            steps.append(("setL", 1))
+    return steps
 
 
 def apply_op(o, op):
@@ -66,9 +143,11 @@ def dense(M):
 def observe(case, xs=None):
     """All observables of the real object for the case (exact integers)."""
     obj = build(case)
-    V, L = case["V"], case["L"]
+    V, L = int(obj.max_vehicles), int(obj.max_sequence_length)
     N = len(obj.nodes)
     out = {"N": N}
+    out["eff"] = {"V": V, "L": L, "vc": [ei(c) for c in obj.vehicle_cost], "ops1": list(case["ops1"]) + list(obj._vq_log)}
+    out["post_done"] = list(obj._vq_post)
     out["names"] = list(obj.node_names)
     out["arcs"] = [((i, j), (ei(a.get_travel_time()), ei(a.get_cost()))) for (i, j), a in obj.arcs.items()]
     probes = [(v, s, k) for v in range(V) for s in range(L) for k in range(N)]
@@ -143,6 +222,7 @@ def shape_lit(s):
 
 
 def case_lit(case, out):
+    case = effective(case, out)
     con = out["con"]
     if con[0] == "ok":
         sa, A, b, sr, R = con[1]
@@ -259,7 +339,7 @@ def gen_case(rng, kind=None):
             ops0 = nodes + arcs[:k] + [("depot", other)] + arcs[k:]
         else:
             ops1 = nodes + arcs[:k] + [("depot", other)] + arcs[k:]
-    return {"kind": kind, "rich": rich, "lookup_first": rng.random() < 0.5, "strict": strict, "ops0": ops0, "ops1": ops1, "V": V, "L": L, "vc": vc}
+    return {"kind": kind, "post": [], "rich": rich, "lookup_first": rng.random() < 0.5, "strict": strict, "ops0": ops0, "ops1": ops1, "V": V, "L": L, "vc": vc}
 
 
 def depot_first(case):
